@@ -118,6 +118,8 @@ def analyse(sym, info):
             site['kind'] = 'data'         # decided by loaded data (a comparison result), not by the position
             continue
         site['D'] = D
+        if any(isinstance(k, tuple) and k[0] == 'J' and k[2] == lenreg for k in D):
+            site['kind'] = 'lenjoin'        # the bound itself differs between the paths that reach this guard
         for r in sorted(idx):
             fr = L.reg(S, r)
             if not any(isinstance(k, tuple) and k[0] == 'J' for k in fr):
@@ -185,6 +187,11 @@ def check(rep, suffix, families, floor_guard, floor_reent, not_decided=()):
             w = '%s: %s' % (u.name, u.where(i, f))
             if s_['kind'] in ('bit', 'data'):
                 other[s_['kind']] += 1
+                continue
+            if s_['kind'] == 'lenjoin':
+                R.instance()
+                R.check(False, w, '%s decides here whether the walk is over by comparing against the length register, but that register does not hold one value on all paths into this branch (%s: it was changed '
+                        'on one way in and not on another): on one of them the walk stops although bytes remain, or runs on past the end' % (sym, asmlin.fmt(s_['D'])), key='R-TAIL-GUARD|%s|%#x' % (sym, i.addr - f.entry))
                 continue
             if s_['kind'] == 'unknown':
                 if sym in not_decided:
